@@ -316,6 +316,7 @@ impl UringWorker {
           std::sync::Arc::clone(&self.worker_asleep),
           std::sync::Arc::clone(&self.work_signal_gen),
           engine_cfg.sndtimeo,
+          user_data,
         ));
 
         let worker_io_config = std::sync::Arc::new(WorkerIoConfig {
